@@ -4,6 +4,11 @@
 // input, one configuration per line:
 //   cfg id=<n> cap=<storage chunk capacity|0> defcs=<default version chunk size> job=<kind> filter=<none|ver|extra>
 //       mode=<current|parallel|single> T=<task count override|-> archs=<k>:<size>:<cs|->:<pattern|*>:<excl 0|1>,...
+//       [nreq=<desc>] [pre=<desc>;<desc>;...]
+//   nreq: request list of a NonTemplateJob for the observed run: letters A B M (=M1) required, a b optional,
+//         S shared required, `0` = empty list (default: nt = Ab, nts = AbS; A must be required in the observed run)
+//   pre:  earlier runs of the SAME job object, unobserved, each with its own request list (typed jobs cannot
+//         change their signature: every entry is one more identical run)
 //   kinds of archetypes (letter k): a=<A> b=<A,B> c=<A,M1> d=<A,B,M2> e=<A,M1,M2> f=<A,B,M3>
 //                                   s=<A>+S(1) t=<A,B>+S(2) u=<A,M1>+S(1)      n=<B> m=<M1,M2> o=<B,M3> p=<M1>+S(1)
 //   job kinds: plain idx ent opt shr arr nt nts
@@ -66,6 +71,8 @@ struct Cfg {
     std::string mode = "current";
     long T = -1;
     std::vector<ArchSpec> archs;
+    std::string nreq;                 // request list of the observed NonTemplateJob run ("" = default of the kind)
+    std::vector<std::string> pre;     // request lists of earlier, unobserved runs of the same job object
 };
 
 struct WArch {               // one archetype of the world, world order
@@ -96,6 +103,7 @@ struct Ctl {
     std::unordered_map<const void*, std::pair<uint32_t, uint32_t> > byAddr;   // address of A -> (arch, idx)
     std::map<const Archetype*, uint32_t> byPtr;
     bool recording = false;
+    bool prior = false;      // an earlier, unobserved run of the job object: callbacks do nothing
     int filter = 0;          // 0 none, 1 version, 2 extra
     long T = -1;
     uint32_t thread_limit = 0;
@@ -275,23 +283,58 @@ struct NTJ : public NonTemplateJob {
 #ifndef VERIF_NO_INTERNALS
     const WorldFilterResult& filterResult() const { return this->filter_result_; }
 #endif
-    void setup() {
-        component_requests = {
-            {ComponentFactory::instance().registerComponent<A>(), false, true},
-            {ComponentFactory::instance().registerComponent<B>(), true, false},
-        };
-        if (with_shared) {
-            shared_component_ids = {ComponentFactory::instance().registerSharedComponent<S>()};
+    int posA = -1, posB = -1, posM = -1;
+    bool reqM = false;
+    // desc: letters A B M required, a b optional, S shared required, 0 = nothing
+    void setup(const std::string& desc) {
+        component_requests.clear();
+        shared_component_ids.clear();
+        posA = posB = posM = -1;
+        with_shared = false;
+        reqM = false;
+        for (char ch : desc) {
+            const int pos = int(component_requests.size());
+            switch (ch) {
+                case 'A': case 'a':
+                    posA = pos;
+                    component_requests.push_back({ComponentFactory::instance().registerComponent<A>(), false, ch == 'A'});
+                    break;
+                case 'B': case 'b':
+                    posB = pos;
+                    component_requests.push_back({ComponentFactory::instance().registerComponent<B>(), true, ch == 'B'});
+                    break;
+                case 'M':
+                    posM = pos;
+                    reqM = true;
+                    component_requests.push_back({ComponentFactory::instance().registerComponent<M1>(), true, true});
+                    break;
+                case 'S':
+                    with_shared = true;
+                    shared_component_ids = {ComponentFactory::instance().registerSharedComponent<S>()};
+                    break;
+                default: break;
+            }
         }
         require_entity = true;
         version_check_mask = versionMask();
         callback = [this](const NonTemplateJob::ForEachArrayArgs& args) {
+            if (g->prior) return;
+            if (posA < 0 || args.components[posA] == nullptr) {
+                g->error("required component A not handed to the callback");
+                return;
+            }
+            if (reqM && args.components[posM] == nullptr) g->error("required component M1 is null");
             const S* s = with_shared ? static_cast<const S*>(args.shared_components[0]) : nullptr;
-            recordArray(args.count.toInt(), static_cast<const A*>(args.components[0]), args.entities, true,
-                        static_cast<const B*>(args.components[1]), with_shared, s, args.invocation_index);
+            recordArray(args.count.toInt(), static_cast<const A*>(args.components[posA]), args.entities, posB >= 0,
+                        posB >= 0 ? static_cast<const B*>(args.components[posB]) : nullptr, with_shared, s,
+                        args.invocation_index);
         };
     }
 };
+
+// request list of a job object for the next run (only run-time described jobs can change it)
+void applyDesc(NTJ& job, const std::string& desc) { job.setup(desc); }
+template<typename J> void applyDesc(J&, const std::string&) {}
 
 // ---- world construction ----
 std::shared_ptr<Dispatcher> g_dispatcher;
@@ -355,6 +398,12 @@ bool parseCfg(const std::string& line, Cfg& c) {
         else if (k == "filter") c.filter = v;
         else if (k == "mode") c.mode = v;
         else if (k == "T") c.T = (v == "-") ? -1 : std::stol(v);
+        else if (k == "nreq") c.nreq = v;
+        else if (k == "pre") {
+            std::istringstream ps{v};
+            std::string item;
+            while (std::getline(ps, item, ';')) if (!item.empty()) c.pre.push_back(item);
+        }
         else if (k == "archs") {
             std::istringstream as{v};
             std::string item;
@@ -402,6 +451,16 @@ void runJob(World& world, J& job, const Cfg& c) {
     auto& dispatcher = world.dispatcher();
     JobRunMode mode = c.mode == "current" ? JobRunMode::kCurrentThread : JobRunMode::kParallel;
     dispatcher.setSingleThreadMode(c.mode == "single");
+    const std::string observed = !c.nreq.empty() ? c.nreq : (c.job == "nts" ? "AbS" : "Ab");
+    for (const auto& desc : c.pre) {
+        // the same job object, described differently, has run before
+        applyDesc(job, desc);
+        g->recording = false;
+        g->prior = true;
+        job.run(world, mode);
+        g->prior = false;
+    }
+    applyDesc(job, observed);
     if (g->filter == 1) {
         // baseline: the job sees everything once, then only what is marked dirty afterwards
         g->recording = false;
@@ -546,8 +605,7 @@ void runCfg(const Cfg& c) {
         else if (c.job == "opt") { JOpt j; runJob(world, j, c); }
         else if (c.job == "shr") { JShr j; runJob(world, j, c); }
         else if (c.job == "arr") { JArr j; runJob(world, j, c); }
-        else if (c.job == "nt") { NTJ j; j.setup(); runJob(world, j, c); }
-        else if (c.job == "nts") { NTJ j; j.with_shared = true; j.setup(); runJob(world, j, c); }
+        else if (c.job == "nt" || c.job == "nts") { NTJ j; runJob(world, j, c); }
         else ctl.error("unknown job kind " + c.job);
     }
     for (const auto& e : ctl.errors) std::printf("E %s\n", e.c_str());
